@@ -140,17 +140,17 @@ func (a *BigInt) Frexp() (frac float64, exp int) {
 	return float64(t.Int64()), exp
 }
 
-// Truncates to Float
+// Converts to Float, rounding to nearest (ties to even) as Python does
 //
 // If it is outside the range of an Float it will return an error
 func (a *BigInt) Float() (Float, error) {
-	frac, exp := a.Frexp()
-	// FIXME this is a bit approximate but errs on the low side so
-	// we won't ever produce +Infs
-	if exp > float64MaxExponent-63 {
+	// The default precision of SetInt holds the integer exactly,
+	// so Float64 rounds only once
+	f, _ := new(big.Float).SetInt((*big.Int)(a)).Float64()
+	if math.IsInf(f, 0) {
 		return 0, overflowErrorFloat
 	}
-	return Float(math.Ldexp(frac, exp)), nil
+	return Float(f), nil
 }
 
 func (a *BigInt) M__neg__() (Object, error) {
